@@ -2334,6 +2334,232 @@ def _inline_operator_getters(tree, counts):
         tree.body[k_] = R().visit(st)
 
 
+# ---------------------------------------------------------------------------------------------------------------------
+# N34 a private helper object that never leaves the function -> its fields as locals, its methods inlined
+
+def _private_object_classes(tree: ast.Module, known: Set[str]) -> Dict[str, ast.ClassDef]:
+    """module-level private classes that only bundle a few values with a few methods: no bases, no decorators, a body of plain
+    methods / properties (and a docstring, `__slots__`); every field is an attribute assigned on `self`"""
+    out = {}
+    for st in tree.body:
+        if not (isinstance(st, ast.ClassDef) and st.name.startswith("_") and not st.name.startswith("__") and st.name not in known):
+            continue
+        if st.keywords or st.decorator_list or any(not (isinstance(b, ast.Name) and b.id == "object") for b in st.bases):
+            continue
+        ok = True
+        for b in _strip_doc(st.body):
+            if isinstance(b, ast.FunctionDef):
+                decs = [d.id if isinstance(d, ast.Name) else None for d in b.decorator_list]
+                if decs not in ([], ["property"]) or not b.args.args or b.args.kwarg or b.args.posonlyargs:
+                    ok = False
+                if b.name.startswith("__") and b.name != "__init__":
+                    ok = False
+                if any(isinstance(n, (ast.Yield, ast.YieldFrom, ast.Global, ast.Nonlocal, ast.Lambda)) or isinstance(n, FDEFS) for n in _walk_own(b)):
+                    ok = False
+            elif isinstance(b, ast.Assign) and len(b.targets) == 1 and isinstance(b.targets[0], ast.Name) and b.targets[0].id == "__slots__":
+                continue
+            elif isinstance(b, ast.AnnAssign) and b.value is None:
+                continue  # a bare field annotation
+            elif not isinstance(b, ast.Pass):
+                ok = False
+        if ok:
+            out[st.name] = st
+    return out
+
+
+def _objects_to_locals(module_name: str, tree: ast.Module, known: Set[str], multiply_defined: frozenset) -> None:
+    """t = _X(a) ... t.note(v) ... t.release() ... t.count      (t bound once, used only as `t.<member>`, never handed on)
+       ->  the statements of _X.__init__ / note / release with `self.f` read as the local t__f
+    The methods are inlined by the helper inliner (as functions taking the object first); when anything of the object is left
+    afterwards (a method that cannot be inlined, a member the class does not define) the function is kept as it was.  A class
+    whose every use went this way is dropped like an inlined helper."""
+    classes = _private_object_classes(tree, known)
+    if not classes:
+        return
+    members: Dict[str, Dict[str, str]] = {}
+    synth: List[ast.FunctionDef] = []
+    for cname, c in classes.items():
+        mem: Dict[str, str] = {}
+        for b in c.body:
+            if isinstance(b, ast.FunctionDef):
+                mem[b.name] = "property" if b.decorator_list else "method"
+        for b in c.body:
+            if isinstance(b, ast.FunctionDef):
+                me = b.args.args[0].arg
+                for n in ast.walk(b):
+                    if isinstance(n, ast.Attribute) and isinstance(n.value, ast.Name) and n.value.id == me and isinstance(n.ctx, ast.Store):
+                        mem.setdefault(n.attr, "field")
+        members[cname] = mem
+
+    def fname(cname, m):
+        return f"{cname}__{m.strip('_') if m == '__init__' else m}"
+
+    def rewrite_uses(node, obj, cname):
+        """obj.method(...) -> _X__method(obj, ...); obj.prop -> _X__prop(obj)"""
+        mem = members[cname]
+
+        class T(ast.NodeTransformer):
+            def visit_Call(self, n):
+                if isinstance(n.func, ast.Attribute) and isinstance(n.func.value, ast.Name) and n.func.value.id == obj and mem.get(n.func.attr) == "method":
+                    n.args = [self.visit(a) for a in n.args]
+                    n.keywords = [self.visit(k) for k in n.keywords]
+                    return ast.copy_location(ast.Call(func=ast.Name(id=fname(cname, n.func.attr), ctx=ast.Load()), args=[ast.Name(id=obj, ctx=ast.Load())] + n.args, keywords=n.keywords), n)
+                return self.generic_visit(n)
+
+            def visit_Attribute(self, n):
+                if isinstance(n.value, ast.Name) and n.value.id == obj and mem.get(n.attr) == "property" and isinstance(n.ctx, ast.Load):
+                    return ast.copy_location(ast.Call(func=ast.Name(id=fname(cname, n.attr), ctx=ast.Load()), args=[ast.Name(id=obj, ctx=ast.Load())], keywords=[]), n)
+                return self.generic_visit(n)
+
+        return T().visit(node)
+
+    for cname, c in classes.items():
+        for b in c.body:
+            if isinstance(b, ast.FunctionDef):
+                f = copy.deepcopy(b)
+                f.name = fname(cname, b.name)
+                f.decorator_list = []
+                f = rewrite_uses(f, f.args.args[0].arg, cname)
+                synth.append(f)
+    synth = _flatten_block(synth)
+    holder = ast.Module(body=list(synth), type_ignores=[])
+    inl = Inliner(module_name, holder, multiply_defined)
+    if len(inl.helpers) != len(synth):
+        # a method that calls itself (directly) is no helper: objects of its class are left alone
+        alive = {h.fn.name for h in inl.helpers.values()}
+        for cname in list(classes):
+            if any(fname(cname, b.name) not in alive for b in classes[cname].body if isinstance(b, ast.FunctionDef)):
+                del classes[cname]
+        if not classes:
+            return
+    # helpers calling helpers: inline inside the synthetic functions first (expressions only; statement calls are followed at the use site)
+    for f in synth:
+        inl.inline_expressions(f, None)
+
+    def process(fn, enclosing_cls):
+        binds: Dict[str, int] = {}
+        for n in _walk_own(fn):
+            if isinstance(n, ast.Name) and isinstance(n.ctx, (ast.Store, ast.Del)):
+                binds[n.id] = binds.get(n.id, 0) + 1
+        params = {a.arg for a in ast.walk(fn.args) if isinstance(a, ast.arg)}
+        cands: Dict[str, str] = {}
+        for n in _walk_own(fn):
+            if isinstance(n, ast.Assign) and len(n.targets) == 1 and isinstance(n.targets[0], ast.Name) and isinstance(n.value, ast.Call) and isinstance(n.value.func, ast.Name) \
+                    and n.value.func.id in classes and binds.get(n.targets[0].id) == 1 and n.targets[0].id not in params:
+                cands[n.targets[0].id] = n.value.func.id
+        if not cands:
+            return
+        parent = {}
+        for n in ast.walk(fn):
+            for ch in ast.iter_child_nodes(n):
+                parent[id(ch)] = n
+        own = {id(n) for n in _walk_own(fn)}
+        for name, cname in list(cands.items()):
+            for n in ast.walk(fn):
+                if isinstance(n, ast.Name) and n.id == name:
+                    p_ = parent.get(id(n))
+                    if isinstance(n.ctx, ast.Store):
+                        continue
+                    if id(n) not in own:
+                        cands.pop(name, None)  # read inside a closure
+                        break
+                    if not (isinstance(p_, ast.Attribute) and p_.value is n and p_.attr in members[cname]):
+                        cands.pop(name, None)
+                        break
+                    kind = members[cname][p_.attr]
+                    if kind == "method" and not (isinstance(parent.get(id(p_)), ast.Call) and parent[id(p_)].func is p_):
+                        cands.pop(name, None)  # a bound method handed on
+                        break
+                    if kind == "property" and not isinstance(p_.ctx, ast.Load):
+                        cands.pop(name, None)
+                        break
+        if not cands:
+            return
+        work = copy.deepcopy(fn)
+        for name, cname in cands.items():
+            work = rewrite_uses(work, name, cname)
+            has_init = "__init__" in members[cname]
+            for n in list(_walk_own(work)):
+                if isinstance(n, ast.Assign) and len(n.targets) == 1 and isinstance(n.targets[0], ast.Name) and n.targets[0].id == name:
+                    call = n.value
+                    n.targets = [ast.Name(id="__nqsa_drop__", ctx=ast.Store())]
+                    if has_init:
+                        n.value = ast.copy_location(ast.Call(func=ast.Name(id=fname(cname, "__init__"), ctx=ast.Load()), args=[ast.Name(id=name, ctx=ast.Load())] + call.args, keywords=call.keywords), call)
+                    else:
+                        if call.args or call.keywords:
+                            return
+                        n.value = ast.copy_location(ast.Constant(value=None), call)
+
+        def to_expr_stmts(stmts):
+            out = []
+            for st in stmts:
+                for field in ("body", "orelse", "finalbody"):
+                    sub = getattr(st, field, None)
+                    if isinstance(sub, list) and sub and isinstance(sub[0], ast.stmt) and not isinstance(st, FDEFS + (ast.ClassDef,)):
+                        setattr(st, field, to_expr_stmts(sub))
+                if isinstance(st, ast.Try):
+                    for hd in st.handlers:
+                        hd.body = to_expr_stmts(hd.body)
+                if isinstance(st, ast.Assign) and len(st.targets) == 1 and isinstance(st.targets[0], ast.Name) and st.targets[0].id == "__nqsa_drop__":
+                    if isinstance(st.value, ast.Call):
+                        out.append(ast.copy_location(ast.Expr(value=st.value), st))
+                    continue
+                out.append(st)
+            return out
+
+        work.body = to_expr_stmts(work.body)
+        inl.inline_expressions(work, None)
+        for _ in range(3):
+            work.body = inl.inline_statements(work.body, None)
+        # everything left of the objects must be plain field accesses; no synthetic function may still be called
+        synth_names = {f.name for f in synth}
+        wparent = {}
+        for n in ast.walk(work):
+            for ch in ast.iter_child_nodes(n):
+                wparent[id(ch)] = n
+        for n in ast.walk(work):
+            if isinstance(n, ast.Name) and n.id in synth_names:
+                return
+            if isinstance(n, ast.Name) and n.id in cands:
+                p_ = wparent.get(id(n))
+                if not (isinstance(p_, ast.Attribute) and p_.value is n and members[cands[n.id]].get(p_.attr) == "field"):
+                    return
+
+        class F(ast.NodeTransformer):
+            def visit_Attribute(self, n):
+                if isinstance(n.value, ast.Name) and n.value.id in cands:
+                    return ast.copy_location(ast.Name(id=f"{n.value.id}__{n.attr.lstrip('_')}", ctx=n.ctx), n)
+                return self.generic_visit(n)
+
+        work = F().visit(work)
+        fn.body = work.body
+
+    for st in tree.body:
+        if isinstance(st, FDEFS):
+            process(st, None)
+            for n in ast.walk(st):
+                if n is not st and isinstance(n, FDEFS):
+                    process(n, None)
+        elif isinstance(st, ast.ClassDef) and st.name not in classes:
+            for f in ast.walk(st):
+                if isinstance(f, FDEFS):
+                    process(f, st.name)
+    # a class nothing mentions any more is dead code
+    for cname, c in classes.items():
+        if cname in multiply_defined:
+            continue
+        mentioned = False
+        inside = {id(x) for x in ast.walk(c)}
+        for n in ast.walk(tree):
+            if id(n) in inside:
+                continue
+            if (isinstance(n, ast.Name) and n.id == cname) or (isinstance(n, ast.Attribute) and n.attr == cname) or (isinstance(n, ast.Constant) and isinstance(n.value, str) and cname in n.value):
+                mentioned = True
+                break
+        if not mentioned and c in tree.body:
+            tree.body.remove(c)
+
+
 def _local_annotations_to_assignments(tree):
     """x: T = v  ->  x = v   for plain local names inside functions (the annotation is kept as the assignment's type comment, where
     the truthiness typing still reads it).  Class-level fields and attributes keep their annotated form."""
@@ -2399,14 +2625,140 @@ class _MembershipInModuleTuple(ast.NodeTransformer):
         return node
 
 
+_PURE_SEQ_READERS = ("zip", "len", "list", "tuple", "enumerate", "sorted", "reversed", "iter", "any", "all", "sum", "min", "max", "set", "frozenset")
+
+
+def _stable_names(fn) -> Set[str]:
+    """parameters that are never rebound and locals bound exactly once (plain `name = ...` / tuple targets count as one binding each)"""
+    stores: Dict[str, int] = {}
+    for n in ast.walk(fn):
+        if isinstance(n, ast.Name) and isinstance(n.ctx, (ast.Store, ast.Del)):
+            stores[n.id] = stores.get(n.id, 0) + 1
+    params = {a.arg for a in ast.walk(fn.args) if isinstance(a, ast.arg)}
+    return {p_ for p_ in params if stores.get(p_, 0) == 0} | {k_ for k_, v_ in stores.items() if v_ == 1 and k_ not in params}
+
+
+def _append_only_lists(fn, top: List[ast.stmt]) -> Dict[str, List[Tuple[int, ast.AST]]]:
+    """local lists bound once to `[]` at the top level of the function and changed by nothing but top-level `L.append(<expr>)` statements:
+    L -> [(index of the top-level statement, appended expression)].  Any other way the list could change (another method called on it,
+    an item / slice store, `+=`, `del`, the list itself handed to a call that is not a pure reader, an alias, a closure) disqualifies."""
+    cands: Dict[str, int] = {}
+    for k, st in enumerate(top):
+        if isinstance(st, ast.Assign) and len(st.targets) == 1 and isinstance(st.targets[0], ast.Name) and isinstance(st.value, ast.List) and not st.value.elts:
+            cands[st.targets[0].id] = k
+    if not cands:
+        return {}
+    stores: Dict[str, int] = {}
+    for n in ast.walk(fn):
+        if isinstance(n, ast.Name) and isinstance(n.ctx, (ast.Store, ast.Del)):
+            stores[n.id] = stores.get(n.id, 0) + 1
+    params = {a.arg for a in ast.walk(fn.args) if isinstance(a, ast.arg)}
+    cands = {n_: k_ for n_, k_ in cands.items() if stores.get(n_) == 1 and n_ not in params}
+    own = {id(n) for n in _walk_own(fn)}
+    parent = {}
+    for n in ast.walk(fn):
+        for ch in ast.iter_child_nodes(n):
+            parent[id(ch)] = n
+    appends: Dict[str, List[Tuple[int, ast.AST]]] = {n_: [] for n_ in cands}
+    top_append = {}
+    for k, st in enumerate(top):
+        if isinstance(st, ast.Expr) and isinstance(st.value, ast.Call) and isinstance(st.value.func, ast.Attribute) and st.value.func.attr == "append" \
+                and isinstance(st.value.func.value, ast.Name) and st.value.func.value.id in cands and len(st.value.args) == 1 and not st.value.keywords:
+            top_append[id(st.value.func.value)] = (k, st.value.args[0])
+    for n in ast.walk(fn):
+        if not (isinstance(n, ast.Name) and n.id in cands and isinstance(n.ctx, ast.Load)):
+            continue
+        if id(n) not in own:
+            cands.pop(n.id, None)
+            continue
+        if id(n) in top_append:
+            appends[n.id].append(top_append[id(n)])
+            continue
+        p_ = parent.get(id(n))
+        ok = False
+        if isinstance(p_, ast.Subscript) and p_.value is n and isinstance(p_.ctx, ast.Load):
+            ok = True
+        elif isinstance(p_, ast.Starred) and isinstance(p_.ctx, ast.Load) and isinstance(parent.get(id(p_)), (ast.List, ast.Tuple, ast.Set)):
+            ok = True   # [*L, x]
+        elif isinstance(p_, ast.Call) and n in p_.args and isinstance(p_.func, ast.Name) and p_.func.id in _PURE_SEQ_READERS:
+            ok = True
+        elif isinstance(p_, (ast.For, ast.comprehension)) and p_.iter is n:
+            ok = True
+        elif isinstance(p_, ast.Compare):
+            ok = True
+        if not ok:
+            cands.pop(n.id, None)
+    return {n_: sorted(v_, key=lambda t_: t_[0]) for n_, v_ in appends.items() if n_ in cands}
+
+
+def _forward_list_items(fn) -> None:
+    """L = [] ; L.append(a) ; L.append(b) ; ... L[0] ... L[1]   ->   ... a ... b     (constant index, read after the append that put
+    the item there; L an append-only local list as above; a, b names that are bound once - so they still mean what was appended)"""
+    top = fn.body
+    lists = _append_only_lists(fn, top)
+    if not lists:
+        return
+    stable = _stable_names(fn)
+
+    class T(ast.NodeTransformer):
+        def __init__(self, upto):
+            self.upto = upto
+
+        def visit_Subscript(self, n):
+            self.generic_visit(n)
+            if isinstance(n.value, ast.Name) and n.value.id in lists and isinstance(n.ctx, ast.Load) and isinstance(n.slice, ast.Constant) and isinstance(n.slice.value, int) \
+                    and not isinstance(n.slice.value, bool):
+                before = [e_ for k_, e_ in lists[n.value.id] if k_ < self.upto]
+                if 0 <= n.slice.value < len(before) and isinstance(before[n.slice.value], ast.Name) and before[n.slice.value].id in stable:
+                    return ast.copy_location(ast.Name(id=before[n.slice.value].id, ctx=ast.Load()), n)
+            return n
+
+        def visit_FunctionDef(self, n):
+            return n
+
+        visit_AsyncFunctionDef = visit_Lambda = visit_FunctionDef
+
+    for k, st in enumerate(top):
+        if isinstance(st, (ast.For, ast.While, ast.AsyncFor)):
+            continue  # (a statement that runs repeatedly is left alone; the appends are all at the top level anyway)
+        top[k] = T(k).visit(st)
+    # x = x left behind by forwarding
+    fn.body = [st for st in top if not (isinstance(st, ast.Assign) and len(st.targets) == 1 and isinstance(st.targets[0], ast.Name) and isinstance(st.value, ast.Name) and st.value.id == st.targets[0].id)]
+
+
+def _read_before_rebound(later: List[ast.stmt], name: str) -> bool:
+    """is the value `name` has now read by the statements that follow (in the same block)?  False when the first statement that mentions
+    it binds it anew without reading it (a plain assignment, the target of a loop)"""
+    for st in later:
+        if not any(isinstance(n, ast.Name) and n.id == name for n in ast.walk(st)):
+            continue
+        if isinstance(st, ast.Assign) and not any(isinstance(n, ast.Name) and n.id == name for n in ast.walk(st.value)) \
+                and all(isinstance(t_, ast.Name) or (isinstance(t_, ast.Tuple) and all(isinstance(x_, ast.Name) for x_ in t_.elts)) for t_ in st.targets):
+            return False
+        if isinstance(st, ast.For) and not any(isinstance(n, ast.Name) and n.id == name for n in ast.walk(st.iter)) \
+                and any(isinstance(n, ast.Name) and n.id == name for n in ast.walk(st.target)) and (isinstance(st.target, ast.Name) or (isinstance(st.target, ast.Tuple) and all(isinstance(x_, ast.Name) for x_ in st.target.elts))):
+            # (an empty iterable would leave the old value in place for what follows the loop: only when nothing after the loop reads it either)
+            rest = later[later.index(st) + 1:]
+            return any(isinstance(n, ast.Name) and n.id == name for s_ in rest for n in ast.walk(s_))
+        return True
+    return False
+
+
 def _unroll_literal_loops(fn, module_tables=None):
     """for v in (a, b, c): BODY   ->   v__u1 = a; BODY[v := v__u1]; v__u2 = b; BODY[v := v__u2]; ...
     for a display of at most 6 names / attribute chains / constants, a body of at most 6 statements without break / continue / nested
     definitions that does not rebind any name of the display, and a loop variable that is not read after the loop."""
     counter = [0]
     params = {a.arg for a in ast.walk(fn.args) if isinstance(a, ast.arg)}
+    # locals bound once to a tuple display of stable names / constants (a tuple cannot change; its elements keep their meaning)
+    stable = _stable_names(fn)
+    local_displays: Dict[str, ast.Tuple] = {}
+    for n in _walk_own(fn):
+        if isinstance(n, ast.Assign) and len(n.targets) == 1 and isinstance(n.targets[0], ast.Name) and n.targets[0].id in stable and n.targets[0].id not in params \
+                and isinstance(n.value, ast.Tuple) and 1 <= len(n.value.elts) <= 6 and all(isinstance(e, ast.Constant) or (isinstance(e, ast.Name) and e.id in stable) for e in n.value.elts):
+            local_displays[n.targets[0].id] = n.value
 
-    def scan(stmts):
+    def scan(stmts, top_level=False):
         out: List[ast.stmt] = []
         for k, st in enumerate(stmts):
             for field in ("body", "orelse", "finalbody"):
@@ -2442,40 +2794,86 @@ def _unroll_literal_loops(fn, module_tables=None):
                                 return n
                         out.extend(R2().visit(copy.deepcopy(b)) for b in st.body)
                     continue
-            if isinstance(st, ast.For) and not st.orelse and isinstance(st.target, ast.Name) and isinstance(st.iter, (ast.Tuple, ast.List)) and 1 <= len(st.iter.elts) <= 6 \
-                    and all(isinstance(e, ast.Constant) or _plain_chain(e) for e in st.iter.elts) and len(st.body) <= 6 and st.target.id not in params:
-                v = st.target.id
+            # a loop over a local that names a display of stable names reads the display (`ops = (a, b)` ... `for x in ops` / `zip(ops, L)`)
+            if isinstance(st, ast.For) and not st.orelse:
+                if isinstance(st.iter, ast.Name) and st.iter.id in local_displays:
+                    st.iter = copy.deepcopy(local_displays[st.iter.id])
+                elif isinstance(st.iter, ast.Call) and isinstance(st.iter.func, ast.Name) and st.iter.func.id == "zip" and not st.iter.keywords:
+                    st.iter.args = [copy.deepcopy(local_displays[a_.id]) if isinstance(a_, ast.Name) and a_.id in local_displays else a_ for a_ in st.iter.args]
+            # for a, b in zip((p, q), L)   with L an append-only local list that holds at least as many items as the display when the loop
+            # is reached (both at the top level of the function)  ->  for (a, b) in ((p, L[0]), (q, L[1]))
+            if top_level and isinstance(st, ast.For) and not st.orelse and isinstance(st.iter, ast.Call) and isinstance(st.iter.func, ast.Name) and st.iter.func.id == "zip" \
+                    and len(st.iter.args) == 2 and not st.iter.keywords and isinstance(st.target, ast.Tuple) and len(st.target.elts) == 2:
+                d_, l_ = st.iter.args
+                if isinstance(d_, (ast.Tuple, ast.List)) and isinstance(l_, ast.Name) and all(isinstance(e, ast.Constant) or _plain_chain(e) for e in d_.elts):
+                    saved = fn.body
+                    fn.body = out + list(stmts[k:])
+                    try:
+                        facts = _append_only_lists(fn, fn.body)
+                    finally:
+                        fn.body = saved
+                    have = [e_ for k_, e_ in facts.get(l_.id, []) if k_ < len(out)]
+                    if l_.id in facts and len(have) >= len(d_.elts) and len(have) == len(facts[l_.id]):
+                        st.iter = ast.copy_location(ast.Tuple(elts=[ast.Tuple(elts=[copy.deepcopy(e_), ast.Subscript(value=ast.Name(id=l_.id, ctx=ast.Load()), slice=ast.Constant(value=i_), ctx=ast.Load())], ctx=ast.Load())
+                                                                   for i_, e_ in enumerate(d_.elts)], ctx=ast.Load()), st.iter)
+            if isinstance(st, ast.For) and not st.orelse and isinstance(st.iter, (ast.Tuple, ast.List)) and 1 <= len(st.iter.elts) <= 6 and len(st.body) <= 6 \
+                    and (isinstance(st.target, ast.Name) and all(isinstance(e, ast.Constant) or _plain_chain(e) for e in st.iter.elts)
+                         or isinstance(st.target, ast.Tuple) and all(isinstance(t_, ast.Name) for t_ in st.target.elts)
+                         and all(isinstance(e, ast.Tuple) and len(e.elts) == len(st.target.elts) and all(isinstance(x_, ast.Constant) or _plain_chain(x_) for x_ in e.elts) for e in st.iter.elts)):
+                tnames = [st.target.id] if isinstance(st.target, ast.Name) else [t_.id for t_ in st.target.elts]
+                rows = [[e] if isinstance(st.target, ast.Name) else list(e.elts) for e in st.iter.elts]
                 names_in_display = {n.id for e in st.iter.elts for n in ast.walk(e) if isinstance(n, ast.Name)}
-                bad = False
+                bad = bool(set(tnames) & params) or len(set(tnames)) != len(tnames)
                 for n in ast.walk(ast.Module(body=st.body, type_ignores=[])):
                     if isinstance(n, (ast.Break, ast.Continue, ast.Lambda, ast.Yield, ast.YieldFrom, ast.Await, ast.Global, ast.Nonlocal)) or isinstance(n, FDEFS + (ast.ClassDef,)):
                         bad = True
-                    if isinstance(n, ast.Name) and isinstance(n.ctx, (ast.Store, ast.Del)) and n.id in names_in_display and n.id != v:
+                    if isinstance(n, ast.Name) and isinstance(n.ctx, (ast.Store, ast.Del)) and n.id in names_in_display and n.id not in tnames:
                         bad = True
-                    if isinstance(n, (ast.ListComp, ast.SetComp, ast.DictComp, ast.GeneratorExp)) and any(isinstance(x, ast.Name) and x.id == v for x in ast.walk(n)):
+                    if isinstance(n, (ast.ListComp, ast.SetComp, ast.DictComp, ast.GeneratorExp)) and any(isinstance(x, ast.Name) and x.id in tnames for x in ast.walk(n)):
                         bad = True
-                if v in names_in_display:
+                if set(tnames) & names_in_display:
                     bad = True
                 later = stmts[k + 1:]
-                if any(isinstance(n, ast.Name) and n.id == v for s_ in later for n in ast.walk(s_)):
+                if any(_read_before_rebound(later, t_) for t_ in tnames):
                     bad = True
                 if not bad:
-                    for e in st.iter.elts:
+                    # names the body binds afresh in every round (a plain assignment at the top of the body before any read of the name)
+                    # get a name of their own per round, except in the last round (whose values are what the code after the loop reads)
+                    fresh: List[str] = []
+                    seen_read: Set[str] = set()
+                    for b_ in st.body:
+                        tg = []
+                        if isinstance(b_, ast.Assign) and all(isinstance(t_, ast.Name) or (isinstance(t_, ast.Tuple) and all(isinstance(x_, ast.Name) for x_ in t_.elts)) for t_ in b_.targets):
+                            for t_ in b_.targets:
+                                tg.extend([t_.id] if isinstance(t_, ast.Name) else [x_.id for x_ in t_.elts])
+                            reads = {n.id for n in ast.walk(b_.value) if isinstance(n, ast.Name)}
+                        else:
+                            reads = {n.id for n in ast.walk(b_) if isinstance(n, ast.Name)}
+                        seen_read |= reads
+                        for t_ in tg:
+                            if t_ not in seen_read and t_ not in fresh and t_ not in params and t_ not in tnames and t_ not in names_in_display:
+                                fresh.append(t_)
+                        seen_read |= set(tg)
+                    for r_i, row in enumerate(rows):
                         counter[0] += 1
-                        nv = f"{v}__u{counter[0]}"
-                        out.append(ast.copy_location(ast.Assign(targets=[ast.Name(id=nv, ctx=ast.Store())], value=copy.deepcopy(e), lineno=st.lineno), st))
+                        ren = {t_: f"{t_}__u{counter[0]}" for t_ in tnames}
+                        if r_i < len(rows) - 1:
+                            ren.update({f_: f"{f_}__u{counter[0]}" for f_ in fresh})
+                        for t_, e in zip(tnames, row):
+                            out.append(ast.copy_location(ast.Assign(targets=[ast.Name(id=ren[t_], ctx=ast.Store())], value=copy.deepcopy(e), lineno=st.lineno), st))
 
                         class R(ast.NodeTransformer):
-                            def visit_Name(self, n, nv=nv):
-                                if n.id == v:
-                                    return ast.copy_location(ast.Name(id=nv, ctx=n.ctx), n)
+                            def visit_Name(self, n, ren=ren):
+                                if n.id in ren:
+                                    return ast.copy_location(ast.Name(id=ren[n.id], ctx=n.ctx), n)
                                 return n
                         out.extend(R().visit(copy.deepcopy(b)) for b in st.body)
                     continue
             out.append(st)
         return out
 
-    fn.body = scan(fn.body)
+    fn.body = scan(fn.body, top_level=True)
+    _forward_list_items(fn)
 
 
 class _BoolOfCompare(ast.NodeTransformer):
@@ -2587,6 +2985,8 @@ def normalise_module(module_name: str, tree: ast.Module, multiply_defined: froze
     if mt:
         tree = _MembershipInModuleTuple(mt).visit(tree)
     _swap_negative_ifs(tree)
+    if known_names():
+        _objects_to_locals(module_name, tree, set(known_names().get(module_name, [])), multiply_defined)
     inl = Inliner(module_name, tree, multiply_defined)
     had_helpers = bool(inl.helpers)
     if inl.helpers:
